@@ -23,6 +23,8 @@ import (
 //   pub          a sends PUBLISH QoS 0     (a packet arrives from a now)
 //   half / rest  a sends the first bytes of a PUBLISH / the remaining bytes: the packet has
 //                arrived only when it is complete
+//   pinghalf / pubhalf / pingpub   one segment carrying a complete PINGREQ / PUBLISH followed
+//                by the first bytes of a PUBLISH (completed by a later rest) / a complete PUBLISH
 //   bpub         b publishes to x: the broker WRITES to a; this is not a packet from a
 // Reference model: lastArrival = time the last complete packet from a arrived (CONNECT
 // included), idle = now - lastArrival. Verdicts (virtual time is exact, so no tolerance):
@@ -118,6 +120,24 @@ func c37Run(arg string) explore.HistFn {
 				a.SendRaw(full[:3])
 				h.W.Run()
 				h.logf("a: -> first 3 bytes of PUBLISH")
+			case "pinghalf", "pubhalf", "pingpub":
+				// one network segment carrying a complete packet and (the beginning of) the next one
+				m.packets += 2
+				first := ref.Encode(ref.Packet{Type: ref.PINGREQ}, ver, ref.EncOpts{})
+				if f[0] == "pubhalf" {
+					first = full
+				}
+				second := full
+				if f[0] != "pingpub" {
+					second = full[:3]
+					m.halfOpen = true
+				}
+				a.SendRaw(append(append([]byte{}, first...), second...))
+				h.W.Run()
+				h.logf("a: -> %s in one segment", f[0])
+				if !a.Closed() {
+					m.lastMs = now()
+				}
 			case "rest":
 				m.halfOpen = false
 				a.SendRaw(full[3:])
@@ -146,6 +166,9 @@ func c37Run(arg string) explore.HistFn {
 				next = append(next, "rest")
 			} else if m.packets < maxPackets {
 				next = append(next, "ping", "pub", "half")
+				if m.packets+2 <= maxPackets {
+					next = append(next, "pinghalf", "pubhalf", "pingpub")
+				}
 			}
 			if m.bpubs < 1 && idle > 0 {
 				next = append(next, "bpub")
